@@ -140,6 +140,9 @@ class World(sp.Obs):
         self.nested = []
         self.probes = collections.Counter()
         self.b_cfg = 1
+        self.depth = {}              # thread name -> parallel nesting depth (main = 0)
+        self.nest_level = collections.Counter()   # thread name -> nested Parallel calls in progress
+        self.explicit_nest = collections.Counter()  # ... of which with an explicit backend argument
         self.inline_in_start = collections.Counter()
 
     # -- generic log
@@ -157,12 +160,19 @@ class World(sp.Obs):
         if kind.startswith("factory") or kind in ("pool_created", "executor_created"):
             me = ds.S.me()
             self.factory_calls.append((kind, a[0] if a else None, me.name if me else None,
-                                       bool(me and me.role == "worker")))
+                                       bool(me and me.role == "worker"),
+                                       self.nest_level[me.name] if me else 0,
+                                       self.explicit_nest[me.name] if me else 0))
         self.ev("note", kind, *a)
 
     def next_pool_index(self):
         self.pool_idx += 1
         return self.pool_idx
+
+    def workers_created(self, names, creator):
+        d = self.depth.get(creator, 0) + 1
+        for n in names:
+            self.depth[n] = d
 
     # -- backend boundary
     def submit(self, stub, func):
@@ -367,10 +377,16 @@ def run_parallel_case(case, consumer=None, setup=None):
         kw = dict(n_jobs=case["n_jobs"], backend=BACKEND_OF[fl], batch_size=case["batch_size"],
                   pre_dispatch=case["pre_dispatch"], return_as=case.get("return_as", "list"),
                   timeout=case.get("timeout"), verbose=case.get("verbose", 0))
-        p = Parallel(**kw)
-        w.parallel = p
-        if case.get("managed"):
-            p.__enter__()
+        try:
+            p = Parallel(**kw)
+            w.parallel = p
+            if case.get("managed"):
+                p.__enter__()
+        except BaseException as e:  # noqa -- e.g. n_jobs=0: counts as the outcome of the first call
+            w.calls.append({"c": 0, "t0": s.now, "t1": s.now, "outcome": outcome_of_exception(e), "over": True,
+                            "over_seq": len(w.events), "values": [], "setup_failed": True})
+            w.ev("setup_failed", type(e).__name__)
+            return
         for c, call in enumerate(case["calls"]):
             rec = {"c": c, "t0": s.now, "outcome": None, "over": False, "failed_at": None, "values": []}
             w.calls.append(rec)
